@@ -168,8 +168,8 @@ Proof. vm_compute. repeat split. Qed.
    DEFINEDNESS side conditions inside the rules of FExec (Proofs/C01for.v): `arrayLength` / `arrayGet` still resolve to the library
    functions when the loop calls them, the body leaves the three temporaries alone, and element i exists when iteration i starts.
 
-   MISSING, named: nested `for` (for-in-for, for inside if / while): `for` is a layer on top of the statement trees; a loop
-   expression whose value is not an array (the loop is skipped after a failed arrayLength argument check); a body that
+   MISSING, named: in THIS theorem the loop is not nested (for-in-for and statements around loops: C01_nested_for_simulation_partial
+   below; a `for` inside an if branch or a while body: not proved); a loop expression whose value is not an array (the loop is skipped after a failed arrayLength argument check); a body that
    shrinks the array under the index; the syntactic criterion "the body never assigns a __bareScript name" for the side
    condition on the temporaries. *)
 From BS Require Import Model.RunC01for Proofs.C01for Proofs.C01forReal.
